@@ -162,6 +162,12 @@ def run(ck, prog, ctx):
                 if ks != {kind}:
                     okk = False
                     why.append("links with %s" % t.callee.res.rsplit("::", 1)[-1])
+            if decs and not (inserts and links):
+                from props.shared import decoder_step_alternatives
+                st_alt, pr_alt = decoder_step_alternatives(prog, pv, db, fld, {"Gene": "gene", "Omim": "omim_disease", "Orpha": "orpha_disease"}[kind])
+                if (inserts or st_alt) and (links or pr_alt):
+                    ck.undecided("ORDER", "decoder/" + kind, "%s decodes %s records and stores / propagates them in another form (%s): kinds of those steps not compared" % (nm, kind, "; ".join(x for x in (st_alt if not inserts else None, pr_alt if not links else None) if x)), where=db.where())
+                    continue
             if not (inserts and decs and links):
                 ck.ob("ORDER", "decoder/" + kind, False, "%s: decode (%d) / propagate (%d) / insert (%d) steps incomplete" % (nm, len(decs), len(links), len(inserts)), where=db.where())
             else:
